@@ -818,8 +818,11 @@ EXPLANATION = (
     "presence of group('frac'); for every valuation of the remaining atoms D is constant or exactly (start is not None "
     'and T < start) or (end is not None and T > end), i.e. strict on both sides (truth tables); every m.group(name) is '
     'defined in all regexes that reach it or guarded. R6: the window verdict enters the per-path match flags of a move '
-    "(source and destination separately), it is not applied once per event. Does NOT decide that the listing's window "
-    '(C14) is the same inclusive window.')
+    '(source and destination separately), it is not applied once per event. R7: the acceptance condition of the method '
+    'that turns a regex match into acceptance (path condition of the accepting statement) implies a call of a validity '
+    'helper whose every path (pyform) returns a false value when building the datetime from the date groups or the '
+    'timedelta from the secs group raised - names that are not a date / a time are rejected as the listing skips them. '
+    "Does NOT decide that the listing's window (C14) is the same inclusive window.")
 TECHNIQUE = (
     'Python ast; abstract execution of flag chains -> regular-language equality with the listing grammar for all flag '
     'rows; event conversion by flag states; path-by-path outcome enumeration of the window method into a propositional '
